@@ -47,7 +47,7 @@ def violations_for(prop, facts):
     by = {}
     for rule in spec['rules']:
         for i in P.run_rule(rule, facts, 'quick'):
-            if prop in i.props and i.status in ('ok', 'violation'):
+            if prop in i.props and (i.status in ('ok', 'violation') or (i.status == 'note' and i.nontrivial)):
                 by[i.rule] = by.get(i.rule, 0) + 1
     for rule, floor in spec.get('floors', {}).items():
         if by.get(rule, 0) < floor:
